@@ -192,6 +192,12 @@ Piggy(s, id) == {c \in DOMAIN s.chks : LET x == s.chks[c] IN ~x.del /\ ~x.ins /\
 \* syncCheck: "Pull in the associated service if any"
 PulledSvc(s, cid) == LET x == s.chks[cid] IN IF x.svc # "" /\ Has(s.svcs, x.svc) /\ ~s.svcs[x.svc].del THEN x.svc ELSE ""
 
+\* deleteService: "service deregister also deletes associated checks" - the pending deregistrations of the checks that
+\* LOCALLY belong to the service are dropped.  Whether that was right (the catalog may hold such a check under another
+\* service, where the cascade does not reach it) is not decided here but by DeregNotForgotten at the end of the step:
+\* another call of the same pass may still remove the row.
+PrunedBy(s, id) == {c \in DOMAIN s.chks : s.chks[c].del /\ s.chks[c].has /\ s.chks[c].svc = id}
+
 \* the result class the servers give when the harness does not inject a failure
 ServerAccepts(s, call) ==
   IF call.m = "reg" /\ call.k = "c"
@@ -205,9 +211,7 @@ ApplyRpc(s, call, o) ==
          IF o = "ok" THEN [RegApply(s, FALSE, FALSE, NoSvc, {}) EXCEPT !.nis = TRUE]
          ELSE IF o = "denied" THEN [s EXCEPT !.nis = TRUE] ELSE s
     [] call.k = "s" /\ call.m = "dereg" ->
-         IF o = "ok" THEN LET r == DeregSvc(s, call.id) IN
-                          [r EXCEPT !.svcs = Del(@, {call.id}),
-                                    !.chks = Del(@, {c \in DOMAIN @ : @[c].del /\ @[c].has /\ @[c].svc = call.id})]
+         IF o = "ok" THEN [DeregSvc(s, call.id) EXCEPT !.svcs = Del(@, {call.id}), !.chks = Del(@, PrunedBy(s, call.id))]
          ELSE IF o = "denied" THEN [s EXCEPT !.svcs[call.id].ins = TRUE] ELSE s
     [] call.k = "s" /\ call.m = "reg" ->
          LET pg == Piggy(s, call.id)
